@@ -1,8 +1,8 @@
 (* Interleaving model of concurrent GCS requests at the granularity of the yield points
    instrumented in the handlers (build tag verif).  Every mutating handler runs
        lock(bucket/name); GetMeta; validateConds; [yield]; store mutation; GetMeta; unlock
-   (copy: lock; [yield]; Copy; GetMeta; unlock), reads take no object lock and are single atomic
-   store calls (memory store).  A thread parks holding the object lock only at that yield; a
+   (copy: lock; [yield]; Copy; GetMeta; unlock); a GET takes no object lock: one store call, [yield],
+   then the response built from what that call returned.  A thread parks holding the object lock only at that yield; a
    scheduler step of a thread that needs a held lock is "blocked" and changes nothing.
    Compose reads its sources BEFORE the yield: the model captures their contents at that step. *)
 From Coq Require Import List NArith ZArith Bool.
@@ -19,7 +19,13 @@ Inductive outcome :=
 
 Inductive gprogress :=
 | GNew
-| GHold (captured : option obj).   (* parked holding the lock; compose: the object to be stored *)
+| GHold (captured : option obj)    (* parked holding the lock; compose: the object to be stored *)
+| GRead (answer : resp).           (* a GET parked between its store read and its response *)
+
+(* metadata / media GET of an object and bucket GET: one store read, a yield, then the response built
+   from what was read *)
+Definition is_get (r : req) : bool :=
+  match r with RGetMedia _ _ | RGetMeta _ _ | RGetBucket _ => true | _ => false end.
 
 Record gthread := mkGThread { gt_todo : list req; gt_prog : gprogress }.
 
@@ -143,7 +149,10 @@ Definition gstep (st : gstate) (i : nat) : gstate * outcome :=
       match gt_prog th with
       | GNew =>
           match lock_key s r with
-          | None => let '(s', rsp) := handle s r in finish s' rsp       (* reads, bucket ops, bad paths *)
+          | None =>
+              if is_get r
+              then (mkGState s (g_holders st) (upd_nth (g_threads st) i (mkGThread (r :: rest) (GRead (snd (handle s r))))), OAt)
+              else let '(s', rsp) := handle s r in finish s' rsp       (* listings, bucket ops, bad paths *)
           | Some k =>
               (* checks made before taking the lock: preconditions that do not parse, declared MD5 *)
               let early :=
@@ -169,6 +178,7 @@ Definition gstep (st : gstate) (i : nat) : gstate * outcome :=
                   else let '(s', rsp) := handle s r in finish s' rsp
               end
           end
+      | GRead rsp => finish s rsp       (* answers with what it read, whatever happened since *)
       | GHold cap =>
           match r, cap, lock_key s r with
           | RCompose _ _ _ _ _ _, Some o, Some k =>
